@@ -1,5 +1,6 @@
 """C19 — converted maps are well-formed inputs of their target mode."""
 from vlib import *
+import m_sort
 import m_conv
 
 
@@ -11,6 +12,7 @@ def run(chk):
         chk.broken_obligation("build", "harness does not build against /repo: " + blog)
         return
     m_conv.run(chk, binary, 2500 if quick else 40000, 40 if quick else 120)
+    m_sort.run(chk, binary, 300 if quick else 6000)
     chk.cov["rule"] = ("osu!standard maps (G1: all shapes, format versions 3-14, all object mixes, slider lengths/repeats, hit "
                        "sound flags, timing setups; G2 mutations of the shipped map) x target taiko/catch/mania x key mods 1K-9K "
                        "(legacy bits), 10K (intermode), none; checked on every converted map: objects non-decreasing, "
